@@ -27,6 +27,8 @@ ANNOT_ATOMS = [i for i, n in enumerate(uni.ATOM_NAMES) if ATOM_SRC[n] is not Non
 # declarations of the signature's type variable: name -> (source name, model decl)
 DECLS = {
     "T0": ("T0", ("unbounded",)),
+    "U0": ("U0", ("unbounded",)),
+    "W0": ("W0", ("unbounded",)),
     "TB": ("TB", ("bounded", (uni.ATOM_NAMES.index("float"),))),
     "TA": ("TA", ("bounded", (uni.ATOM_NAMES.index("clsA"),))),
     "TC": ("TC", ("constrained", [(uni.ATOM_NAMES.index("int"),), (uni.ATOM_NAMES.index("str"),)])),
@@ -34,16 +36,51 @@ DECLS = {
 }
 
 PRELUDE = """
-from typing import Any, Literal, TypeVar
+from typing import Any, Callable, Literal, TypeVar
 from collections.abc import Sequence
 from dataclasses import dataclass
 from c15_universe import A, B, C, a_inst, b_inst, c_inst
 T0 = TypeVar("T0")
+U0 = TypeVar("U0")
+W0 = TypeVar("W0")
 TB = TypeVar("TB", bound=float)
 TA = TypeVar("TA", bound=A)
 TC = TypeVar("TC", int, str)
 TD = TypeVar("TD", float, str, A)
+def g_int_str(a: int) -> str:
+    return "a"
+def g_str_int(a: str) -> int:
+    return 1
+def g_obj_none(a: object) -> None:
+    return None
+def g_float_float(a: float) -> float:
+    return 1.5
+def g_bool_int(a: bool) -> int:
+    return 1
+def g_A_B(a: A) -> B:
+    return b_inst
 """
+
+_A = uni.ATOM_NAMES.index
+# callbacks: name -> (parameter type, return type) as model values
+FUNS = {
+    "g_int_str": ((_A("int"),), (_A("str"),)),
+    "g_str_int": ((_A("str"),), (_A("int"),)),
+    "g_obj_none": ((_A("object"),), (_A("litNone"),)),
+    "g_float_float": ((_A("float"),), (_A("float"),)),
+    "g_bool_int": ((_A("bool"),), (_A("int"),)),
+    "g_A_B": ((_A("clsA"),), (_A("clsB"),)),
+}
+# typed (non-literal) scalar arguments: model value -> (annotation source, runtime default source)
+TYPED = {
+    (_A("int"),): ("int", "1"), (_A("str"),): ("str", '"a"'), (_A("float"),): ("float", "1.5"), (_A("bool"),): ("bool", "True"),
+    (_A("clsA"),): ("A", "a_inst"), (_A("clsB"),): ("B", "b_inst"), (_A("int"), _A("str")): ("int | str", "1"),
+}
+# element types of list / dict / star arguments: model value -> (source, runtime element source)
+ELEMS = {
+    (_A("int"),): ("int", "1"), (_A("str"),): ("str", '"a"'), (_A("bool"),): ("bool", "True"), (_A("float"),): ("float", "1.5"),
+    (_A("clsB"),): ("B", "b_inst"),
+}
 
 
 def obj_value(i):
